@@ -19,6 +19,9 @@ Further families:
     also 101, 201, 330): value files deleted in early pages (1-12 of them), deleted / truncated / extended in later ones
     (variant targets=[[kind, item], ...]), with or without the other damage kinds.
 
+  * nested empty directories (variant nest=[[where, depth, fork, leaf], ...], every cache kind): chains of 1-5 directories nested in one
+    another, at the top of the cache / shard directory or beside value files, optionally forked or ending in an unknown file; monitors
+    only when the tree is deeper than the model's two levels.
   * a busy shard (family 'busy', every cache kind): while another SQLite connection holds the write lock of one cache / shard database
     (taken before the call, or right before the call's BEGIN on that shard; kept for the whole call, or released after k failed BEGIN
     attempts of a retrying call) check() / check(fix=True) with retry False / True either raises (Timeout; the VACUUM of a fixing run
@@ -68,7 +71,8 @@ ASSUMPTIONS = [
     'the database file itself is intact (PRAGMA integrity_check / VACUUM are outside the model) and the write lock can be taken (model and '
     'correspondence; the busy-shard family of the monitors drops the second half)',
     'rowids are unique (INTEGER PRIMARY KEY); keys are not NULL',
-    'directory tree of depth <= 2 below the cache directory (the layout Disk.filename produces), no symbolic links',
+    'model and correspondence: directory tree of depth <= 2 below the cache directory (the layout Disk.filename produces); the monitors also run out-of-band '
+    'directories nested up to 5 deep below the cache / shard directory or below a value-file directory (family nest; cases whose tree fits the model are also compared with it); no symbolic links',
     'readable = the row resolves to a file of the recorded size; check() compares sizes only, so a truncated pickle or UTF-8 file stays undecodable after the repair (the harness truncates/extends raw binary and ASCII text files, whose every prefix/extension -- including the empty one, truncation to 0 bytes -- decodes)',
     'cache directories are given as absolute paths or as paths relative to the working directory (variant relative=True: one path component, the working directory does not change between opening the cache and the last check); disk_min_file_size is 16 or 0 (variant min_file_size=0: value files of length 0 that belong to undamaged items)',
     'no concurrent writer while check() runs; in the busy-shard family the other connection only HOLDS the write lock of one shard database '
@@ -284,6 +288,28 @@ def apply_damage(kind, d, damage, variant):
         variant = dict(variant, add1='new', add2='new', dir2='new')
     todo = (file_damage(kind, damage, dict(variant, targets=[])) + [(k, None) for k in damage if k not in TARGET]
             + [(k, key) for k, key in variant.get('targets', [])])
+    for ni, spec in enumerate(variant.get('nest', [])):
+        # out-of-band directories nested in one another: [where, depth, fork, leaf]
+        #   where: 'root' (a fresh chain in the cache / shard directory), 'xx' / 'yy' (inside the first- / second-level directory of an
+        #          undamaged item's value file, i.e. beside value files), 'other' (the root of the next shard)
+        #   depth: number of new directories nested in one another (1-5); fork: 0, or the level whose directory gets a second, empty
+        #          child 'side'; leaf: 'dir' (the innermost directory is empty) | 'file' (it holds one unknown file)
+        where, depth, fork, leaf = spec
+        top = home
+        if where == 'other':
+            sds = shard_dirs(kind, d)
+            top = sds[(sds.index(home) + 1) % len(sds)] if home in sds else home
+        elif where in ('xx', 'yy') and variant.get('home') != 'empty':
+            top = os.path.join(home, xx if where == 'xx' else yy)
+        names = ['n%d%s' % (ni, 'abcdefgh'[lv]) for lv in range(depth)]
+        p = os.path.join(top, *names)
+        os.makedirs(p)
+        if fork:
+            os.makedirs(os.path.join(top, *(names[:min(fork, depth)] + ['side'])))
+        if leaf == 'file':
+            with open(os.path.join(p, 'deep-stray'), 'wb') as f:
+                f.write(b'deep stray file')
+        log.append(('nest:%s:%d:%d:%s' % (where, depth, fork, leaf), os.path.relpath(p, d)))
     for k, tkey in todo:
         if k in FILE_KINDS:
             sd, fn = find_row(kind, d, tkey)
@@ -543,7 +569,13 @@ def monitor(rec):
             # the directory was not empty before the repair, everything in it was removed by the repair
             if not before or after or k[2] not in o2['dirs']:
                 d16 = False
-        if d16:
+        only_dirs = d16 and all(not any(x.startswith(k[2] + os.sep) for x in rec['obs1'][k[1]]['files']) for k in sec)
+        if only_dirs:
+            # nothing but (nested) directories was below it: an out-of-band chain of empty directories of which the repair removed only a part
+            v('empty_chain_partly_removed', 'second check() reports %s: before the repair each held nothing but nested empty directories (%s); '
+              'check(fix=True) removed the inner ones and left the outer one empty' % (
+                  ', '.join(k[2] for k in sec), '; '.join(sorted(x for k in sec for x in rec['obs1'][k[1]]['dirs'] if x.startswith(k[2] + os.sep))[:6])))
+        elif d16:
             v('empty_parent_after_fix', 'second check() reports %s: the repair removed their contents but not the emptied parents'
               % ', '.join(k[2] for k in sec))
         else:
@@ -991,7 +1023,7 @@ def all_cases(ctx, thorough):
                 cases.append(('fanout' if kind == 'cache' else 'cache', sub, va))
             else:
                 cases.append((kind, sub, dict({k: rng.choice(['new', 'old']) for k in placed}, sign=rng.choice(['up', 'down']))))
-    return mix_dimensions(ctx, cases + sparse_cases(ctx, thorough) + large_cases(ctx, thorough)) + dimension_cases(ctx, thorough)
+    return mix_dimensions(ctx, cases + sparse_cases(ctx, thorough) + large_cases(ctx, thorough)) + dimension_cases(ctx, thorough) + nest_cases(ctx, thorough)
 
 
 STRAY = ['add0', 'add1', 'add2', 'dir1', 'dir2']
@@ -1105,6 +1137,52 @@ def dimension_cases(ctx, thorough):
     return cases
 
 
+def nest_cases(ctx, thorough):
+    """Empty directories nested 1-5 deep (C17's damage alphabet has "empty directories" without a depth): alone in the cache / shard
+    directory, inside the first- and second-level directories that hold value files, in a shard without items, in two shards at once,
+    forked, with an unknown file at the bottom, alone and together with the other damage kinds."""
+    rng = random.Random(ctx.seed * 7919 + 31)
+    placed = ('add1', 'add2', 'dir2')
+    va = dict({k: 'new' for k in placed}, sign='up')
+    vb = dict({k: 'old' for k in placed}, sign='down')
+    cases = []
+    for depth in (1, 2, 3, 4, 5):
+        for j, where in enumerate(('root', 'xx', 'yy')):
+            for kind in (('cache', 'fanout') if thorough else (('cache', 'fanout')[(depth + j) % 2],)):
+                cases.append((kind, (), dict(va, nest=[[where, depth, 0, 'dir']])))
+        cases.append((('fanout', 'cache')[depth % 2], (), dict(va, nest=[[('root', 'yy')[depth % 2], depth, 0, 'file']])))
+        cases.append((('cache', 'fanout')[depth % 2], (), dict(va, nest=[['root', depth, rng.randrange(1, depth + 1), 'dir']])))
+        for kind in ('fanout8', 'django'):
+            cases.append((kind, (), dict(va, home='empty', home_index=depth, nest=[['root', depth, 0, 'dir']])))
+        cases.append((('fanout8', 'django')[depth % 2], (), dict(va, nest=[['other', depth, 0, 'dir'], ['yy', 6 - depth, 0, 'dir']])))
+
+    def rnd_spec(wheres=('root', 'xx', 'yy', 'other')):
+        depth = rng.choice([1, 2, 3, 3, 4, 5])
+        return [rng.choice(wheres), depth, rng.choice([0, 0, rng.randrange(1, depth + 1)]), rng.choice(['dir', 'dir', 'file'])]
+    for kind in ('cache', 'fanout', 'fanout8', 'django'):
+        cases.append((kind, tuple(KINDS), dict(vb, nest=[['yy', 3, 0, 'dir'], ['root', 4, 2, 'dir']])))
+        for _ in range(40 if thorough else 3):
+            sub = tuple(k for k in KINDS if rng.random() < 0.4)
+            var = dict({k: rng.choice(['new', 'old']) for k in placed}, sign=rng.choice(['up', 'down']), nest=[rnd_spec() for _ in range(rng.choice([1, 2, 3]))])
+            if kind in ('fanout8', 'django') and rng.random() < 0.4:
+                var.update(home='empty', home_index=rng.randrange(8))
+            if rng.random() < 0.3:
+                var['relative'] = True
+            if rng.random() < 0.2 and 'home' not in var:        # (with the three extra items of min_file_size=0 no shard is left without items)
+                var['min_file_size'] = 0
+            cases.append((kind, sub, var))
+    return cases
+
+
+def fits_model(rec):
+    """the tree of the case is within what coq/model/Check.v describes: directories at most two levels below the cache directory, files at most three"""
+    for ph in ('obs0', 'obs2'):
+        for o in rec[ph]:
+            if any(x.count(os.sep) > 1 for x in o['dirs']) or any(x.count(os.sep) > 2 for x in o['files']):
+                return False
+    return True
+
+
 def witness_d16():
     """Regression witness of D16 (fixed): a stray file two levels down.  check(fix=True) must remove it together with
     the directories this empties, so that the second check() is empty.  Returns (ok, first, second)."""
@@ -1159,6 +1237,11 @@ def run(ctx, big=False, model=True):
                 'on that shard, kept until the call is over (retry=False) or released after 1-3 failed BEGIN attempts (retry=True), for check() and check(fix=True): '
                 'the call raises (Timeout, or sqlite3.OperationalError from the VACUUM of a fixing run), or the report it returns mentions every inconsistency of every '
                 'shard and a returned fixing run leaves nothing to report; afterwards check(fix=True) / check() / reads as in every other case.  '
+                'Nested empty directories (variant nest=[[where, depth, fork, leaf], ...]): chains of 1-5 out-of-band directories nested in one another, in the cache / '
+                'shard directory, inside the first- and second-level directory of an undamaged value file, in a shard without items, in two shards at once, optionally '
+                'forked (a second empty child at some level) or with one unknown file at the bottom; alone, with all damage kinds, and with random subsets, on Cache, '
+                'FanoutCache (2 / 8 shards) and behind DjangoCache: same rules (plain check reports the empty leaves, the fixing run leaves nothing for the second check; '
+                'a leftover that held only nested empty directories is reported as `empty_chain_partly_removed`).  '
                 'non-trivial = at least one damage kind; distinct = distinct (cache kind, subset, placement, damaged items, relative, truncation length, min file size).')
     check_witness(res)          # first, so that a regression of D16 is reported with this witness
     cases = all_cases(ctx, thorough)
@@ -1187,7 +1270,8 @@ def run(ctx, big=False, model=True):
         shutil.rmtree(wd, ignore_errors=True)
         res.count(['damage', kind, list(sub), sorted((k, v) for k, v in var.items() if k in sub or (k == 'sign' and ('count' in sub or 'size' in sub))
                                                      or (k == 'trunc' and 'truncate' in sub)
-                                                     or k in ('home', 'home_index', 'targets', 'relative', 'min_file_size'))], nontrivial=bool(sub) or bool(var.get('targets')))
+                                                     or k in ('home', 'home_index', 'targets', 'relative', 'min_file_size', 'nest'))],
+                  nontrivial=bool(sub) or bool(var.get('targets')) or bool(var.get('nest')))
         for k in sub:
             hist_kind[k] += 1
         hist_n[len(sub)] = hist_n.get(len(sub), 0) + 1
@@ -1196,7 +1280,8 @@ def run(ctx, big=False, model=True):
         vs = monitor(rec)
         n_d16 += sum(1 for v in vs if v.sig == 'empty_parent_after_fix')
         res.violations += vs
-        recs.append(rec)
+        if fits_model(rec):
+            recs.append(rec)        # (deeper trees -- only the nested-directory family makes them -- are decided by the monitors alone)
         if ci % 7 == 0:
             res.sample({'kind': kind, 'damage': list(sub), 'placement': var, 'plain': wkeys(rec['plain']), 'fix': wkeys(rec['fix']),
                         'second': wkeys(rec['second'])}, limit=4)
@@ -1218,6 +1303,7 @@ def run(ctx, big=False, model=True):
                       'shards_without_items_in_template': empty_shards,
                       'cases_with_damage_in_a_shard_without_items': sum(1 for c in cases if c[2].get('home') == 'empty'),
                       'cases_with_more_than_100_file_rows': sum(1 for c in cases if ':' in c[0]),
+                      'cases_with_nested_empty_directories_by_depth': {str(dp): sum(1 for c in cases if any(sp[1] == dp for sp in c[2].get('nest', []))) for dp in (1, 2, 3, 4, 5)},
                       'exhaustive': bool(thorough)})
     return res
 
